@@ -16,9 +16,11 @@ import (
 	"sync"
 	"time"
 
+	jsonpatch "gopkg.in/evanphx/json-patch.v4"
 	v1 "k8s.io/api/core/v1"
 	metav1 "k8s.io/apimachinery/pkg/apis/meta/v1"
 	"k8s.io/apimachinery/pkg/labels"
+	"k8s.io/apimachinery/pkg/util/strategicpatch"
 	"k8s.io/apimachinery/pkg/util/validation"
 	v1lister "k8s.io/client-go/listers/core/v1"
 )
@@ -313,10 +315,49 @@ func (l *simNodeLister) List(sel labels.Selector) ([]*v1.Node, error) {
 	if w.gscan != nil {
 		w.gscan.AllNodes = pristine
 	}
+	// the selector is honoured as a cache-backed lister does; the population recorded above is always complete
+	if sel != nil && !sel.Empty() {
+		kept := out[:0:0]
+		for _, n := range out {
+			if sel.Matches(labels.Set(n.Labels)) {
+				kept = append(kept, n)
+			}
+		}
+		out = kept
+	}
 	return out, nil
 }
 
-func (l *simPodLister) Pods(ns string) v1lister.PodNamespaceLister { panic("sim: PodLister.Pods not modelled") }
+// Pods is the namespaced view of the same cache.
+func (l *simPodLister) Pods(ns string) v1lister.PodNamespaceLister { return &simPodNSLister{l: l, ns: ns} }
+
+type simPodNSLister struct {
+	l  *simPodLister
+	ns string
+}
+
+func (n *simPodNSLister) List(sel labels.Selector) ([]*v1.Pod, error) {
+	all, err := n.l.List(sel)
+	if err != nil {
+		return nil, err
+	}
+	var out []*v1.Pod
+	for _, p := range all {
+		if p.Namespace == n.ns {
+			out = append(out, p)
+		}
+	}
+	return out, nil
+}
+
+func (n *simPodNSLister) Get(name string) (*v1.Pod, error) {
+	for _, o := range n.l.k.owners() {
+		if p, ok := n.l.k.pcache(o).pods[name]; ok && p.Namespace == n.ns {
+			return p, nil
+		}
+	}
+	return nil, fmt.Errorf("pod %q not found", name)
+}
 
 func (l *simPodLister) List(sel labels.Selector) ([]*v1.Pod, error) {
 	k := l.k
@@ -344,6 +385,15 @@ func (l *simPodLister) List(sel labels.Selector) ([]*v1.Pod, error) {
 	}
 	if w.gscan != nil {
 		w.gscan.AllPods = pristine
+	}
+	if sel != nil && !sel.Empty() {
+		kept := out[:0:0]
+		for _, p := range out {
+			if sel.Matches(labels.Set(p.Labels)) {
+				kept = append(kept, p)
+			}
+		}
+		out = kept
 	}
 	return out, nil
 }
@@ -441,42 +491,50 @@ type simNetErr struct{ msg string }
 
 func (e *simNetErr) Error() string { return e.msg }
 
-func mergePatchNode(stored *v1.Node, patch []byte) (*v1.Node, error) {
-	var doc, p map[string]interface{}
+// patchNode applies a PATCH body the way the API server does for the three patch types a typed client can
+// send. The result carries a resourceVersion only if the patch named one (that is then its precondition).
+func patchNode(stored *v1.Node, patch []byte, contentType string) (*v1.Node, error) {
 	raw, err := json.Marshal(stored)
 	if err != nil {
 		return nil, err
 	}
-	if err := json.Unmarshal(raw, &doc); err != nil {
-		return nil, err
-	}
-	if err := json.Unmarshal(patch, &p); err != nil {
-		return nil, err
-	}
-	var merge func(dst, src map[string]interface{})
-	merge = func(dst, src map[string]interface{}) {
-		for k, v := range src {
-			if v == nil {
-				delete(dst, k)
-				continue
-			}
-			if sm, ok := v.(map[string]interface{}); ok {
-				if dm, ok := dst[k].(map[string]interface{}); ok {
-					merge(dm, sm)
-					continue
-				}
-			}
-			dst[k] = v
+	var out []byte
+	named := false
+	switch {
+	case strings.HasPrefix(contentType, "application/json-patch+json"):
+		ops, err := jsonpatch.DecodePatch(patch)
+		if err != nil {
+			return nil, err
+		}
+		if out, err = ops.Apply(raw); err != nil {
+			return nil, err
+		}
+		named = bytes.Contains(patch, []byte("/metadata/resourceVersion"))
+	case strings.HasPrefix(contentType, "application/strategic-merge-patch+json"):
+		if out, err = strategicpatch.StrategicMergePatch(raw, patch, v1.Node{}); err != nil {
+			return nil, err
+		}
+	default: // application/merge-patch+json
+		if out, err = jsonpatch.MergePatch(raw, patch); err != nil {
+			return nil, err
 		}
 	}
-	merge(doc, p)
-	out, err := json.Marshal(doc)
-	if err != nil {
-		return nil, err
+	if !named {
+		var p struct {
+			Metadata struct {
+				ResourceVersion *string `json:"resourceVersion"`
+			} `json:"metadata"`
+		}
+		if json.Unmarshal(patch, &p) == nil && p.Metadata.ResourceVersion != nil {
+			named = true
+		}
 	}
 	n := &v1.Node{}
 	if err := json.Unmarshal(out, n); err != nil {
 		return nil, err
+	}
+	if !named {
+		n.ResourceVersion = ""
 	}
 	return n, nil
 }
@@ -536,16 +594,13 @@ func (k *Kube) serveNode(req *http.Request, name string, body []byte) (*http.Res
 		c.PrevGet = w.lastGet[name]
 	}
 	if op == OpPatch {
-		// JSON-merge semantics (objects merged, lists and scalars replaced). For a Node that is also what a
-		// strategic merge patch does to spec.taints, which is an atomic list without a merge key.
 		c.PrevGet = w.lastGet[name]
 		if stored, ok := k.nodes[name]; ok {
-			merged, err := mergePatchNode(stored, body)
+			merged, err := patchNode(stored, body, req.Header.Get("Content-Type"))
 			if err != nil {
 				w.endCall(c, false, "bad patch")
 				return statusResp(req, 400, metav1.StatusReasonBadRequest, "sim: cannot apply patch: "+err.Error(), 0), nil
 			}
-			merged.ResourceVersion = "" // a patch carries no precondition unless it names one
 			putNode = merged
 			c.NodeBody = merged.DeepCopy()
 		}
